@@ -394,6 +394,33 @@ def run(ctx):
 
     check_histories(ctx, hists, cm, gl, cla, arguments, model_state)
 
+    # ---------------- MANY clusters: cluster counts at and around the powers of two at which a label / key stored in a narrow
+    # integer type wraps (255, 256, 257; 65535, 65536, 65537); every label value present, -1 ("not clustered") too
+    if ctx.replay is None or "many_clusters" in (ctx.replay or {}):
+        import random as _pr
+        Ks = [ctx.replay["many_clusters"]] if ctx.replay is not None else \
+            ([255, 256, 257, 65536] if ctx.quick() else [127, 128, 129, 255, 256, 257, 1000, 65535, 65536, 65537])
+        for K_ in Ks:
+            r_ = _pr.Random(ctx.seed * 7 + K_)
+            T_ = K_ + r_.randint(50, 400)
+            labels_ = list(range(K_)) + [r_.randrange(K_) for _ in range(T_ - K_ - 3)] + [K_ - 1, -1, K_ - 1]
+            r_.shuffle(labels_)
+            ua = arguments.UserArguments(sparsity_weight=0.11, iteration_limit=2, label_switching_cost=1.0, min_cluster_size=1,
+                                         min_meaningful_covariance=0, num_clusters=K_, num_processors=1, window_size=1,
+                                         biased_covariance=False)
+            st_ = model_state.ModelState.empty_model(ua, np.zeros((T_, 1)))
+            st_.point_labels = list(labels_)
+            want_ = {}
+            for i_, l_ in enumerate(labels_):
+                if l_ >= 0:
+                    want_.setdefault(l_, []).append(i_)
+            wrong = [k for k in range(K_) if [int(x) for x in st_.clusters[k].member_points] != want_.get(k, [])]
+            if wrong or len(st_.clusters) != K_:
+                ctx.violation("impl-violation", f"K = {K_}: after assigning a labelling the member list of cluster {wrong[:1]} does not hold "
+                              "exactly the points carrying its label", {"many_clusters": K_}, {"site": "phase-inv", "op": "assign-labels"})
+            ctx.count("many_cluster_states")
+            ctx.case(("many-clusters", K_), nontrivial=True)
+
     # ---------------- phase boundaries of traced real runs
     for cfg in cfgs:
         res, tr, err, series = tu.execute(cfg)
